@@ -9,6 +9,7 @@ import (
 	"io"
 	"math/rand"
 	"os"
+	"path/filepath"
 	"sort"
 	"strings"
 
@@ -434,9 +435,20 @@ func cmdDriveNetIndex(args []string) error {
 			reqs = append(reqs, reqJSON{URL: "http://" + word + ".example/1.png", FrameURL: "http://" + host + "/", Cpt: "image"})
 		}
 	}
+	// $domain lists in which one name is a string suffix of another without being its parent domain (short patterns: such
+	// rules are filed under their domains, not under a shortcut), asked from both names and from sub-domains
+	for i, pair := range [][2]string{{"bay.example", "ebay.example"}, {"t.co", "pinterest.co"}, {"sub.shop.example", "shop.example"}, {"x.org", "x.org.evil.example"}} {
+		keep = append(keep, fmt.Sprintf("/s%d^$domain=%s|%s", i, pair[0], pair[1]), fmt.Sprintf("@@/s%d^$domain=%s|%s,image", i, pair[1], pair[0]))
+		for _, src := range []string{pair[0], pair[1], "www." + pair[1], "a.b." + pair[0], "not" + pair[0]} {
+			reqs = append(reqs, reqJSON{URL: fmt.Sprintf("http://cdn.example/s%d/x.png", i), FrameURL: "http://" + src + "/page", Cpt: []string{"image", "script"}[i%2]})
+		}
+	}
 	// three lists: plain; with a byte order mark and a title line; with CRLF line ends.  Where a rule sits in its
 	// list (and so its storage index) must not matter.
 	third := len(keep) / 3
+	// the last line of the first list (no line break after it) is needed by the very last request only
+	keep = append(keep[:third-1], append([]string{"||last-line-of-list-one.example^"}, keep[third-1:]...)...)
+	reqs = append(reqs, reqJSON{URL: "http://last-line-of-list-one.example/x.js", FrameURL: "http://other.example/", Cpt: "script"})
 	st, err := filterlist.NewRuleStorage([]filterlist.RuleList{
 		&filterlist.StringRuleList{ID: 1, RulesText: strings.Join(keep[:third], "\n")},
 		&filterlist.StringRuleList{ID: -2, RulesText: "\xef\xbb\xbf! Title: second list\n" + strings.Join(keep[third:2*third], "\n")},
@@ -445,6 +457,32 @@ func cmdDriveNetIndex(args []string) error {
 		return err
 	}
 	eng := urlfilter.NewNetworkEngine(st)
+	// the same three texts as files (the first one ends without a line break): a second engine whose answers are logged
+	// as events of their own
+	fdir, err := os.MkdirTemp("", "vh-netindex-")
+	if err != nil {
+		return err
+	}
+	defer os.RemoveAll(fdir)
+	var flists []filterlist.RuleList
+	for i, txt := range []string{strings.Join(keep[:third], "\n"), "\xef\xbb\xbf! Title: second list\n" + strings.Join(keep[third:2*third], "\n"),
+		"! Title: third list\r\n" + strings.Join(keep[2*third:], "\r\n") + "\r\n"} {
+		fp := filepath.Join(fdir, fmt.Sprintf("list%d.txt", i))
+		if err = os.WriteFile(fp, []byte(txt), 0o600); err != nil {
+			return err
+		}
+		fl, err := filterlist.NewFileRuleList([]int{1, -2, 3}[i], fp, false)
+		if err != nil {
+			return err
+		}
+		flists = append(flists, fl)
+	}
+	fst, err := filterlist.NewRuleStorage(flists)
+	if err != nil {
+		return err
+	}
+	defer fst.Close()
+	feng := urlfilter.NewNetworkEngine(fst)
 	// the reference: the network rules of the lists, parsed line by line (not taken from the storage scanner)
 	var all []*rules.NetworkRule
 	for _, l := range keep {
@@ -479,6 +517,17 @@ func cmdDriveNetIndex(args []string) error {
 			nonempty++
 		}
 		out.write(ev)
+		fev := niEvent{Query: rq.URL + " (file-backed lists)", Eng: []string{}, Scan: ev.Scan}
+		if pv := safeCall(func() {
+			for _, r := range feng.MatchAll(q) {
+				fev.Eng = append(fev.Eng, r.RuleText)
+			}
+		}); pv != "" {
+			fev.Eng = append(fev.Eng, "PANIC "+pv)
+		}
+		if strings.Join(fev.Eng, "\n") != strings.Join(ev.Eng, "\n") {
+			out.write(fev) // equal answers are already judged by the event above
+		}
 	}
 	summary(map[string]any{"events": out.n, "rules": len(all), "nonempty": nonempty})
 	return nil
